@@ -84,3 +84,23 @@ def search(seed, broken, budget):
         r = gen_vhdx.gen_recipe(rng, "quick", depth=1, big=(i % 4 == 0))
         cases.append({"id": f"s{i}", "recipe": r, "align": rng.choice([8192, 4096, 65536]), "queries": gen_vhdx.gen_queries(rng, r, 10)})
     return cases
+
+
+# ---- adapters used by C08 / C13
+def open_impl(case, built):
+    from dissect.hypervisor.disk.vhdx import VHDX
+    return VHDX(built.files["l0"].open())
+
+
+def stream_prefix(case, built):
+    ids = sorted(built.files)
+    return f"vhdx.stream {case['align']} {len(ids)} " + " ".join(ids)
+
+
+def open_line(case, built):
+    return "vhdx.open " + " ".join(sorted(built.files))
+
+
+def truth_reader(case):
+    t = gen_vhdx.Truth(case["recipe"])
+    return t.size, t.read, case["recipe"]["layers"][-1]["ss"]
